@@ -499,3 +499,61 @@ def replay_process_independence(p):
                 problems.append("process with PYTHONHASHSEED=%s LANG=%s differs from the first process" % envs[i][:2])
                 break
     return {"reproduced": bool(problems), "expected": "identical transcripts", "observed": "; ".join(problems[:3]) or "identical"}
+
+
+@register("lex_first")
+def replay_lex_first(p):
+    """First emitted token (or error) of the real lexer vs the reference tokenizer on the same text."""
+    from pyab_experiment.language.lexer import ExperimentLexer
+    from vf.ref import tokens as ref
+    text = dec(p["text"])
+
+    def impl_first():
+        import contextlib, io
+        buf = io.StringIO()
+        with contextlib.redirect_stdout(buf), contextlib.redirect_stderr(buf):
+            lx = ExperimentLexer()
+            try:
+                for tok in lx.tokenize(text):
+                    return ("token", tok.type, tok.value, buf.getvalue())
+            except Exception as e:
+                return ("error", type(e).__name__, None, buf.getvalue())
+            if type(lx) is not ExperimentLexer:
+                return ("end-inside-comment", None, None, buf.getvalue())
+            return ("end", None, None, buf.getvalue())
+
+    def ref_first():
+        try:
+            toks = ref.py_tokenize(text)
+        except ref.RefLexError as e:
+            # tokens before the error position?
+            pos = e.args[0]
+            try:
+                before = ref.py_tokenize(text[:pos])
+            except ref.RefLexError:
+                before = []
+            if before:
+                return ("token", before[0][0], before[0][2])
+            return ("error", None, None)
+        if toks:
+            return ("token", toks[0][0], toks[0][2])
+        return ("end", None, None)
+    i, r = impl_first(), ref_first()
+    if r[0] == "token":
+        same = i[0] == "token" and i[1] == r[1] and i[2] == r[2] and type(i[2]) is type(r[2])
+    elif r[0] == "error":
+        same = i[0] == "error"
+    else:
+        same = i[0] == "end"
+    printed = (" (lexer printed %r)" % i[3][:60]) if i[3] else ""
+    return {"reproduced": not same, "expected": "reference: %r" % (r,), "observed": "implementation: %r%s" % (i[:3], printed)}
+
+
+@register("ast_equal")
+def replay_ast_equal(p):
+    """Two texts that differ only in trivia must parse to equal ASTs (and both must parse)."""
+    from pyab_experiment.utils.wraper_functions import parse_source
+    a = outcome_of(lambda: parse_source(dec(p["a"])))
+    b = outcome_of(lambda: parse_source(dec(p["b"])))
+    same = a[0] == "value" and b[0] == "value" and a[1] is not None and a[1] == b[1]
+    return {"reproduced": not same, "expected": "equal ASTs", "observed": "%s | %s" % (show(a)[:150], show(b)[:150])}
